@@ -671,6 +671,11 @@ def _apply_guard(uid: str, body: str, expr: str, lk: str, mode: str) -> Tuple[st
             edits.append((toks[cb].start, toks[cb].start, "; " + rel + " __guard_tail "))
         else:
             edits.append((toks[cb].start, toks[cb].start, " " + rel + " "))
+        if mode == "x" and name == "_":
+            # `let _ = <guard expr>;` drops the guard in the same statement: acquired and released at once
+            body = body[:toks[i].start] + "self.%s_acquire(); %s" % (lk, rel) + body[toks[k].end:]
+            count += 1
+            continue
         if mode == "x":
             acq = "self.%s_acquire(); let %s = ();" % (lk, name)
         else:
